@@ -566,7 +566,9 @@ def run(ctx):
     r08_1(ctx)
     # lost-worker outcome: an unfinished job whose owner exited is always failed, for every exit status
     from .c04 import r04_4, r04_5
-    r04_4(ctx)
+    from ..report import Except
+    # (when the report comes and which status it names is C04's business, not C01's)
+    r04_4(Except(ctx, ('marker-written-once',)))
     r04_5(ctx)
     from .c03 import r03_5
     from ..report import Only
